@@ -136,6 +136,9 @@ func (p *Prog) File(pos token.Pos) string {
 // typeAliases: today's name of a renamed type -> the name the rules know it by (see anchors.go).
 var typeAliases = map[string]string{}
 
+// fieldAliases: struct type -> field index -> the field name the rules know it by.
+var fieldAliases = map[*types.Struct]map[int]string{}
+
 // KnownTypeName: the name of a named type as the rules know it (a renamed type keeps its old name).
 func KnownTypeName(n *types.Named) string {
 	if n == nil {
